@@ -38,6 +38,11 @@ theorem cond_broadcast_handshake :
     BIND picks never obtain the same turn (what makes `pickRR` an atomic step of the pool model) -/
 theorem rr_cursor_atomic_add : rrCursorAtomicAdds = 1 ∧ rrCursorOtherWrites = 0 := by decide
 
+/-- C01 / C07 (F22): a completing BIND call reads the connection of its channel only after it holds the
+    balancer lock (under which a refresh swaps that connection): the model's completion step, which
+    binds the keys to the channel's *current* connection, is atomic with respect to the swap -/
+theorem bind_reads_subconn_under_lock : bindReadsSubConnUnderLock = true := by decide
+
 theorem balancer_name : balancerName = "grpc_gcp" := by decide
 
 end GcpVerif.Ties
